@@ -107,7 +107,8 @@ def S_mark(holder: Dict[str, Any], name: str, what: str) -> None:
     holder.setdefault("_marks", []).append((name, what))
 
 
-def run_case(ctx, backend: str, init: str, kinds: List[str], chooser_factory, resend_412: bool = False) -> Dict[str, Any]:
+def run_case(ctx, backend: str, init: str, kinds: List[str], chooser_factory, resend_412: bool = False,
+             die_after: Optional[int] = None) -> Dict[str, Any]:
     """resend_412 (object store only): the FIRST create-if-absent PUT of the pointer is applied, its response is lost, the
     client library re-sends it and the caller is told 412 PreconditionFailed -- a conflict with its own write."""
     import datashard
@@ -184,14 +185,27 @@ def run_case(ctx, backend: str, init: str, kinds: List[str], chooser_factory, re
         enabled_at: List[List[str]] = []
         chooser = chooser_factory(sc)
 
+        died = {"steps": 0}
+
         def rec(en: List[str], s: S.Scheduler) -> Optional[str]:
             enabled_at.append(list(en))
+            if die_after is not None:
+                # actor A0 is a process that DIES after `die_after` steps: it is never scheduled again (no handler of its
+                # runs; what it wrote stays); the others run to completion
+                if died["steps"] < die_after and "A0" in en:
+                    died["steps"] += 1
+                    return "A0"
+                rest = [a for a in en if a != "A0"]
+                return rest[0] if rest else None
             return chooser(en, s)
         try:
             sched_rec = sc.run(rec)
             out["deadlock"] = None
         except S.Deadlock as e:
             out["deadlock"] = str(e)
+            sc.kill_remaining()
+        if die_after is not None:
+            out["died"] = "A0" if sc.actors["A0"].state != "done" else None
             sc.kill_remaining()
         out["schedule"], out["enabled_at"] = sched_rec, enabled_at
         out["log"] = sc.log
@@ -242,6 +256,8 @@ def oracle(out: Dict[str, Any]) -> Optional[str]:
     fin = out["final"]
     opened_missing = out["init"] == "absent" and any(k == "open" for k in out["kinds"])
     for n, (st, d) in out["outcomes"].items():
+        if out.get("died") == n:
+            continue            # the process that died has no outcome
         kind = out["kinds"][int(n[1:])]
         if st != "ok" and not (kind == "open" and "No Iceberg table" in d and out["init"] == "absent"):
             return f"{kind} call {n} raised: {d}"
@@ -453,6 +469,18 @@ def run(ctx) -> None:
                 continue
             exprs.append(model_expr(out, evs))
             metas.append((backend, init, kinds, dev, out, evs))
+    # object store: a creator DIES after each of its steps; a second creator then creates the table and appends
+    probe = run_case(ctx, "s3cas", "absent", ["create"], c01.dev_chooser({}))
+    n0 = sum(1 for a in probe["schedule"] if a == "A0")
+    for k in range(0, n0 + 1):
+        out = run_case(ctx, "s3cas", "absent", ["create", "create_append"], c01.dev_chooser({}), die_after=k)
+        total += 1
+        outside[0] += 1
+        ctx.count(1, ("s3cas", "absent-creator-dies", k))
+        why = oracle(out)
+        if why:
+            ctx.violation("create-race:s3cas:absent-creator-dies", f"{why} [the first creator died after {k} of its {n0} steps]",
+                          {"backend": "s3cas", "init": "absent", "kinds": ["create", "create_append"], "deviations": [], "schedule": out["schedule"], "die_after": k})
     # object store: the pointer create is applied, its response lost, the re-sent request answered 412 (oracle only)
     for kinds in (["create"], ["create", "open"], ["create", "create"], ["create_append", "create"]):
         out = run_case(ctx, "s3cas", "absent", kinds, c01.dev_chooser({}), resend_412=True)
@@ -499,7 +527,9 @@ def replay(ctx, payload) -> int:
         print("replay: no concrete case")
         return 2
     dev = c.get("deviations", [])
-    if c.get("resend_412"):
+    if c.get("die_after") is not None:
+        out = run_case(ctx, c["backend"], c["init"], c["kinds"], c01.dev_chooser({}), die_after=c["die_after"])
+    elif c.get("resend_412"):
         out = run_case(ctx, c["backend"], c["init"], c["kinds"], c01.dev_chooser({}), resend_412=True)
     elif dev and dev[0][0] == "random":
         out = run_case(ctx, c["backend"], c["init"], c["kinds"], lambda sc: S.random_chooser(_r.Random(dev[0][1]), 0.4))
